@@ -235,6 +235,9 @@ func didRules(p *Prog, r *Report, clause string, want func(string) bool) *didMod
 					r.OK(key, "who may write DID entries: message handlers (under the proof schema) and InitGenesis", p.FnPos(c), FuncName(c))
 				case InPkgs(c, "types/testsuite"):
 					r.OKTrivial(key, "test-support package", p.FnPos(c), "types/testsuite")
+				case p.transparent(c) && didCalledOnlyFromHandlers(p, m, c, 0):
+					// an extracted tail of the handlers ("build the entry and store it"): the handler's own analysis descends into it
+					r.OK(key, "who may write DID entries: message handlers (under the proof schema) and InitGenesis", p.FnPos(c), FuncName(c)+": a helper called only from message handlers, analysed as part of each of them")
 				default:
 					r.Fail(key, "who may write DID entries: message handlers (under the proof schema) and InitGenesis", p.FnPos(c),
 						fmt.Sprintf("%s writes a DID entry but is neither a MsgServer handler nor InitGenesis: the ownership-proof schema does not cover it", FuncName(c)))
@@ -258,10 +261,25 @@ func didRules(p *Prog, r *Report, clause string, want func(string) bool) *didMod
 		h := &didHandler{fn: fn, msg: msgName, o: NewOrigin(p, fn)}
 		h.fa = NewFacts(p, fn, h.o)
 		var sets []*ssa.Call
+		var setTerms []*Term
 		for _, cs := range callSites(fn) {
 			if cs.Callee != nil && m.setters[resolveBound(cs.Callee)] {
 				if c, ok := cs.Instr.(*ssa.Call); ok {
 					sets = append(sets, c)
+					setTerms = append(setTerms, nil)
+				}
+			}
+		}
+		if len(sets) == 0 {
+			// the write may sit in a transparent helper the handler calls ("build the entry and store it"): the call in the handler
+			// stands for it, with the helper's parameters replaced by the handler's arguments
+			for _, vc := range h.o.VirtualCalls() {
+				if vc.Direct || vc.Callee == nil || !m.setters[resolveBound(vc.Callee)] || vc.Term == nil || !vc.Always {
+					continue
+				}
+				if rc, ok := vc.Root.(*ssa.Call); ok {
+					sets = append(sets, rc)
+					setTerms = append(setTerms, vc.Term)
 				}
 			}
 		}
@@ -276,6 +294,9 @@ func didRules(p *Prog, r *Report, clause string, want func(string) bool) *didMod
 		}
 		h.set = sets[0]
 		h.setT = h.o.Of(h.set)
+		if setTerms[0] != nil {
+			h.setT = setTerms[0]
+		}
 		site := p.Pos(h.set.Pos())
 		if h.setT.Op != "call" || len(h.setT.Args) != 4 {
 			r.Undecided(kp("SCHEMA", hn+"#setter-args"), "setter call shape", site, h.setT.String())
@@ -837,3 +858,22 @@ func checkVerifyBody(p *Prog, r *Report, kp func(string, string) string, v *ssa.
 	}
 }
 
+
+
+// didCalledOnlyFromHandlers: every caller of fn is a DID message handler, or another transparent helper of which the same holds.
+func didCalledOnlyFromHandlers(p *Prog, m *didModel, fn *ssa.Function, depth int) bool {
+	callers, _ := p.CallersOf(fn)
+	if len(callers) == 0 || depth > 2 {
+		return false
+	}
+	for _, c := range callers {
+		if m.msgOf[c] != nil {
+			continue
+		}
+		if p.transparent(c) && didCalledOnlyFromHandlers(p, m, c, depth+1) {
+			continue
+		}
+		return false
+	}
+	return true
+}
